@@ -29,6 +29,7 @@ import (
 	"github.com/daeuniverse/dae/common/assets"
 	"github.com/daeuniverse/dae/common/consts"
 	"github.com/daeuniverse/dae/component/dns"
+	"github.com/daeuniverse/dae/component/outbound"
 	"github.com/daeuniverse/dae/component/routing"
 	"github.com/daeuniverse/dae/config"
 	"github.com/daeuniverse/dae/pkg/config_parser"
@@ -293,6 +294,14 @@ func c17Pipeline(log *logrus.Logger, stats *c17Counters, finder *assets.Location
 				}
 			}
 		}
+		for i := range conf.Group { // group policy / filters / annotations, as ControlPlane does before dialing
+			if _, err := outbound.NewDialerSelectionPolicyFromGroupParam(&conf.Group[i]); err == nil {
+				stats.Inc("pipeline.group.policy-ok")
+			}
+			if _, _, err := (&outbound.DialerSet{}).FilterAndAnnotate(conf.Group[i].Filter, conf.Group[i].FilterAnnotation); err == nil {
+				stats.Inc("pipeline.group.filter-ok")
+			}
+		}
 		_, err = dns.New(&conf.Dns, &dns.NewOption{
 			Logger:                log,
 			LocationFinder:        finder,
@@ -493,6 +502,10 @@ func c17EvalOp(log *logrus.Logger, finder *assets.LocationFinder, op string, cnt
 		return c17Pipeline(log, cnt, finder, unhex(w[1]))
 	case len(w) == 1 && w[0] == "n":
 		return c17Pipeline(log, cnt, finder, "")
+	case len(w) == 3 && w[0] == "k":
+		var n int
+		fmt.Sscan(w[2], &n)
+		return c17Pipeline(log, cnt, finder, c17StressInput(w[1], n))
 	}
 	return "bad-op"
 }
@@ -525,6 +538,50 @@ func TestVerifC17Child(t *testing.T) {
 			t.Fatal(err)
 		}
 	}
+}
+
+// c17StressInput builds a LONG or DEEP input for the "never crashes, whatever the input" clause (no model:
+// the driver answers `done`; a dead child or a panic is the violation).
+func c17StressInput(kind string, n int) string {
+	rep := func(s string, k int) string { return strings.Repeat(s, k) }
+	switch kind {
+	case "params": // one function with n parameters (the Walker recurses once per parameter)
+		return "global{} routing{ domain(" + strings.TrimSuffix(rep("suffix: a.com, ", n), ", ") + ") -> direct }"
+	case "andchain":
+		return "global{} routing{ " + strings.TrimSuffix(rep("dport(80) && ", n), " && ") + " -> direct }"
+	case "nest":
+		return rep("a{", n) + rep("}", n)
+	case "nest-unclosed":
+		return rep("a{", n)
+	case "litlist":
+		return "global{ lan_interface: " + strings.TrimSuffix(rep("eth0, ", n), ", ") + " } routing{}"
+	case "items":
+		return "global{} routing{} node{ " + rep("'ss://x' ", n) + "}"
+	case "rules":
+		return "global{} routing{ " + rep("dport(80) -> direct\n", n) + "}"
+	case "annotation":
+		return "global{} routing{} group{ g { policy: min filter: name(x) [" + strings.TrimSuffix(rep("k: v, ", n), ", ") + "] } }"
+	case "quote":
+		return "global{ log_level: '" + rep("x", n) + "' } routing{}"
+	case "quote-unclosed":
+		return "global{ log_level: '" + rep("x\\'", n)
+	case "comment-unclosed":
+		return "global{} /*" + rep(" * /", n)
+	case "word":
+		return "global{ log_level: " + rep("a#", n) + " } routing{}"
+	case "bangs":
+		return "a{" + rep("!", n) + "}"
+	case "closers":
+		return rep("}", n)
+	case "bytes":
+		r := NewVRand(uint64(n))
+		b := make([]byte, n)
+		for i := range b {
+			b[i] = byte(r.Intn(256))
+		}
+		return string(b)
+	}
+	return ""
 }
 
 // c17RunInChild evaluates the ops in child processes; an op during which the child died is answered
@@ -671,6 +728,20 @@ func TestVerifC17Compile(t *testing.T) {
 		ops = append(ops, "n "+c17Hex(in))
 	}
 
+	if shard == 0 { // long / deep inputs
+		big := 20000
+		if VThorough() {
+			big = 200000
+		}
+		for _, kind := range []string{"params", "andchain", "litlist", "items", "rules", "annotation", "quote", "quote-unclosed", "comment-unclosed", "word", "bangs", "closers", "bytes"} {
+			ops = append(ops, fmt.Sprintf("k %s %d", kind, big))
+			stats.Inc("stress." + kind)
+		}
+		for _, kind := range []string{"nest", "nest-unclosed"} {
+			ops = append(ops, fmt.Sprintf("k %s %d", kind, big/10))
+			stats.Inc("stress." + kind)
+		}
+	}
 	res := c17RunInChild(t, ops, geodir, stats, "all")
 	for i, op := range ops {
 		out := "crash:no-answer"
